@@ -7,7 +7,7 @@ from typing import Dict, Set
 from ..absint import Client, Ctx, Interp
 from ..model import Cls, Func, Program, walk_own
 from ..report import Report
-from ..resolve import dotted
+from ..resolve import const_value, dotted
 from ..util import assigned_value, calls_in, ext_name, src
 from .filefam import Family, is_call_to, run_typestate
 
@@ -104,6 +104,13 @@ def r2_helper(prog, rep: Report, fam: Family):
             ex = it.run(f, {(False, False)}, c)
             finals = ex.normal | ex.ret
             badp = [s for s in finals if s[0] and not s[1]]
+            stamp_only = [s for s in finals if s[1] and not s[0]]
+            if want_open and stamp_only:
+                rep.viol("C18.R2", f, "open:pid-only-with-handle",
+                         f"a path of open() records os.getpid() in self.{pid} without opening a new handle (the no-op path of an "
+                         f"already open file re-stamps the owner)",
+                         scenario="a forked worker calls f.open() before its first read: the inherited handle is stamped with the "
+                                  "worker's pid, the re-open helper never fires and the worker shares the parent's file position")
             if want_open:
                 touched = any(s[0] for s in finals)
                 if not touched:
@@ -121,7 +128,42 @@ def r2_helper(prog, rep: Report, fam: Family):
                           scenario="close(); fork; open() in the child is skipped or the helper closes a None handle")
 
 
+class _HelperCompares(Client):
+    """state = (pid comparison evaluated, file known to be not open)"""
+
+    def __init__(self, prog, pid, handles):
+        self.P, self.pid, self.handles = prog, pid, handles
+
+    def should_inline(self, func, call, ctx):
+        return False
+
+    def refine(self, test, state, ctx):
+        cmpd, notopen = state
+        sn = ctx.func.self_name
+        if isinstance(test, ast.Compare) and len(test.ops) == 1:
+            l, r, op = test.left, test.comparators[0], test.ops[0]
+            d = dotted(l)
+            if d and len(d) == 2 and d[0] == sn and (d[1] == self.pid or d[1] in self.handles) and const_value(r, 0) is None:
+                if isinstance(op, ast.IsNot):
+                    return ((cmpd, False),), ((cmpd, True),)
+                if isinstance(op, ast.Is):
+                    return ((cmpd, True),), ((cmpd, False),)
+            if any(is_call_to(self.P, ctx.func, x, "os.getpid") for x in (l, r)):
+                return ((True, notopen),), ((True, notopen),)
+        return (state,), (state,)
+
+
 def _check_helper(prog, rep: Report, f: Func, pid: str, c: Cls):
+    from .filefam import Family
+    it = Interp(prog, _HelperCompares(prog, pid, {"file", "mm"}))
+    ex = it.run(f, {(False, False)}, c)
+    skipped = [s_ for s_ in (ex.normal | ex.ret) if not s_[0] and not s_[1]]
+    rep.check("C18.R2", f, "helper:always-compares", not skipped,
+              "every path through the helper compares the recorded pid with os.getpid() (unless the file is not open)",
+              "the helper can return without comparing the recorded pid with os.getpid() although the file is open (an early exit "
+              "on per-object state, which a fork copies)",
+              scenario="the parent reads a line, then forks: the children inherit the 'already verified' state, never compare "
+                       "pids and keep using the parent's handle")
     sn = f.self_name
     verdict = None
     detail = ""
